@@ -172,6 +172,9 @@ pub struct Setup {
     /// the first time its task is blocked (not runnable) after it recorded a trace entry whose first
     /// argument is this marker
     pub raise_usr1_when_blocked_after: Option<String>,
+    /// with `raise_usr1_when_blocked_after`: raise SIGUSR2 at the same instant (both signals are
+    /// pending when the shell wakes up)
+    pub raise_usr2_too: bool,
 }
 
 impl Setup {
@@ -194,6 +197,7 @@ impl Setup {
             cont_on_stall: false,
             raise_usr1_at_step: None,
             raise_usr1_when_blocked_after: None,
+            raise_usr2_too: false,
         }
     }
     pub fn args(mut self, args: &[&str]) -> Setup {
@@ -521,6 +525,9 @@ pub fn run(setup: &Setup) -> RunResult {
                         if let Some(p) = st.processes.get_mut(&yash_env::job::Pid(main_pid)) {
                             if p.disposition(SIGUSR1) == yash_env::system::Disposition::Catch && p.state().is_alive() {
                                 let _ = p.raise_signal(SIGUSR1);
+                                if setup.raise_usr2_too && p.disposition(yash_env::system::r#virtual::SIGUSR2) == yash_env::system::Disposition::Catch {
+                                    let _ = p.raise_signal(yash_env::system::r#virtual::SIGUSR2);
+                                }
                                 log.raised = true;
                                 log.raised_trace_len = probes::TRACE.with(|t| t.borrow().len());
                             }
